@@ -115,6 +115,14 @@ def no_undescribed_access(ctx):
     ctx.check(ok, f'{aa.qualname}:unexported module hides its accessibles', aa.node,
               '`if not self.export: accessible.export = False` precedes the wire-name registration',
               'accessibles of an unexported module keep their wire names: they can be read/changed although not described', aa)
+    # the wire name is registered after the configuration was applied to the accessible (export may be configured)
+    setp = [i for c in calls_in(aa.node) if call_attr(c) == 'setProperty' for i in cfg.node_of(c)]
+    late = [r for r in reg if cfg.reach(cfg.node_of(r)) & set(setp)]
+    ctx.check(bool(reg) and not late, f'{aa.qualname}:wire name registered after configuration', reg[0] if reg else aa.node,
+              'no setProperty can follow the registration of the wire name',
+              'the wire name is entered into accessiblename2attr before the configured properties are applied: a parameter configured with '
+              'export=False stays readable and changeable under its old name although it is no longer described (and a configured custom '
+              'name is described but not reachable)', aa)
     if n_obl < 4:
         raise AnchorMissing('module/accessible lookups in the dispatcher not recognised')
 
